@@ -28,7 +28,7 @@ def one_case(args):
     exe, wd, seed, case, tier = args
     rng = rng_for(seed, case)
     out = dict(case=case, viol=None, runs=0, key=None, sample=None)
-    kind = rng.choice(["clean", "errors", "errors", "fatal", "custom", "mismatch", "badinput", "invalid", "codes", "codes", "cap", "mute"])
+    kind = rng.choice(["clean", "errors", "errors", "fatal", "custom", "mismatch", "badinput", "invalid", "codes", "codes", "cap", "mute", "noreport", "noreport"])
     N = rng.choice([1, 2, 7, 123, 255])
     mode = rng.choice(list(obs.MODES))
     margs = obs.MODES[mode]
@@ -107,6 +107,12 @@ def one_case(args):
                     return bad("mute: %d messages displayed although muted" % len(r2.displayed_errors()), r2)
                 if r2.total_errors() != k or r2.report_rows().get("Total Errors") != str(k):
                     return bad("mute: totals changed: %s / %s instead of %d" % (r2.total_errors(), r2.report_rows().get("Total Errors"), k), r2)
+                # muting drops context lines only: the (location, code) list of the collected errors is the same
+                l0 = [(m.offset, m.code) for m in r0.reported()]
+                l2 = [(m.offset, m.code) for m in r2.reported()]
+                if l0 != l2:
+                    d = [x for x in l0 if x not in l2][:1] + [x for x in l2 if x not in l0][:1]
+                    return bad("mute: the list of collected errors (location, code) changed under -m, e.g. %s" % (d,), r2)
             elif kind == "codes" and k:
                 lead = [obs.Msg(t).code if t.startswith("0x") else (obs.CODE.match(t).group(1) if obs.CODE.match(t) else None) for t in shown0]
                 present = sorted(set(c for c in lead if c))
@@ -170,6 +176,34 @@ def one_case(args):
             r = run([p] + margs + ["-c", t], stats="json")
             if r.abnormal(allowed_rc=(0,)):
                 return bad("custom check failure without -E: %s" % r.abnormal(allowed_rc=(0,)), r)
+        elif kind == "noreport":
+            # the contract does not depend on whether a report is printed: views and filtered writing with a non-fatal error
+            # ([E100] from an input that ends inside the last payload, [E9001] from a failing custom check) return N as well
+            s = gen.generate(rng.getrandbits(40), n_links=rng.choice([1, 2, 4]))
+            data = s.serialize()
+            sub = rng.choice(["trunc", "custom", "both", "none"])
+            if sub in ("trunc", "both"):
+                w = R.walk(data)
+                if w and w[-1].payload_len >= 2:
+                    data = data[:len(data) - rng.randrange(1, w[-1].payload_len)]
+            p = put("in.raw", data)
+            copts = []
+            if sub in ("custom", "both"):
+                copts = ["-c", put("checks.toml", "cdps = %d\n" % (len(s.all_packets()) + rng.choice([1, 5])))]
+            lk = rng.choice(s.links)
+            how = rng.choice(["view rdh", "view its-readout-frames", "view its-readout-frames-data", "filter stdout", "filter file"])
+            margs2 = {"filter stdout": ["-f", str(lk.link_id)], "filter file": ["-f", str(lk.link_id), "-o", os.path.join(wd, "c%d_filtered.raw" % case)]}.get(how) or how.split()
+            out["sample"] = "%s (%s), %s, -E %d" % (kind, sub, how, N)
+            r = run([p] + margs2 + copts + ["-E", str(N)], stats="json")
+            if r.sig is not None or r.panicked() or r.timeout or r.stats is None:
+                return bad("%s: %s" % (how, r.abnormal() or "no statistics file"), r)
+            es = r.stats["error_stats"]
+            k = es["total_errors"]
+            want = N if (k or es.get("fatal_error")) else 0
+            if r.rc != want:
+                return bad("exit: %s with %d collected error(s) (%s): exit status %s, expected %d" % (how, k, (es["reported_errors"] + es["custom_checks_stats_errors"] + [""])[0][:60], r.rc, want), r)
+            out["key"] = (kind, how, sub, k > 0)
+            return out
         elif kind == "mismatch":
             s = gen.generate(rng.getrandbits(40))
             p = put("in.raw", s.serialize())
@@ -214,6 +248,12 @@ def one_case(args):
                 "-p without stave filter": [p, "check", "all", "its-stave", "-p", "198", "-S", sp, "-D", "json"],
                 "-p with check all its": [p, "check", "all", "its", "-p", "198"] + R.filter_args("stave", lk.fee) + ["-S", sp, "-D", "json"],
                 "-p with a view": [p, "view", "rdh", "-p", "198"] + R.filter_args("stave", lk.fee) + ["-S", sp, "-D", "json"],
+                "-p with view its-readout-frames": [p, "view", "its-readout-frames", "-p", "198"] + R.filter_args("stave", lk.fee) + ["-S", sp, "-D", "json"],
+                "-p with check sanity its": [p, "check", "sanity", "its", "-p", "198"] + R.filter_args("stave", lk.fee) + ["-S", sp, "-D", "json"],
+                "-p with check sanity": [p, "check", "sanity", "-p", "198"] + R.filter_args("stave", lk.fee) + ["-S", sp, "-D", "json"],
+                "-p with check all": [p, "check", "all", "-p", "198"] + R.filter_args("stave", lk.fee) + ["-S", sp, "-D", "json"],
+                "-p with filtered writing": [p, "-p", "198", "-o", op] + R.filter_args("stave", lk.fee),
+                "sanity its-stave with -p": [p, "check", "sanity", "its-stave", "-p", "198"] + R.filter_args("stave", lk.fee) + ["-S", sp, "-D", "json"],
                 "-o without filter": [p, "-o", op],
                 "-S without -D": [p] + margs + ["-S", sp],
                 "two filters": [p] + margs + ["-f", "1", "-F", "2"],
@@ -229,17 +269,19 @@ def one_case(args):
                     return bad("upper-case statistics extension: rejected (exit %s) after output was written" % r.rc, r)
                 out["key"] = (kind, "extension case")
                 return out
-            name = rng.choice(list(combos))
-            r = run(combos[name])
-            if r.sig is not None or r.panicked() or r.timeout:
-                return bad("invalid combination `%s`: %s" % (name, r.abnormal()), r)
-            if r.rc == 0:
-                return bad("invalid combination `%s`: exit status 0" % name, r)
-            if r.stdout.strip():
-                return bad("invalid combination `%s`: output on stdout before rejection" % name, r)
-            if os.path.exists(sp) or os.path.exists(op):
-                return bad("invalid combination `%s`: an output / statistics file was created" % name, r)
-            out["key"] = (kind, name)
+            # every combination in every such case (each is rejected at once, so this is cheap)
+            for name in combos:
+                r = run(combos[name])
+                if r.sig is not None or r.panicked() or r.timeout:
+                    return bad("invalid combination `%s`: %s" % (name, r.abnormal()), r)
+                if r.rc == 0:
+                    return bad("invalid combination `%s`: exit status 0" % name, r)
+                if r.stdout.strip():
+                    return bad("invalid combination `%s`: output on stdout before rejection" % name, r)
+                if os.path.exists(sp) or os.path.exists(op):
+                    return bad("invalid combination `%s`: an output / statistics file was created" % name, r)
+                out.setdefault("keys", []).append((kind, name))
+            out["key"] = (kind, "all combinations")
             return out
         out["key"] = (kind, mode)
         return out
@@ -260,7 +302,7 @@ def run(res):
         if o["sample"]:
             res.sample(o["sample"], cap=8)
     res.rule = ("contract table x N in {1,2,7,123,255} x check modes: clean / k errors / mid-stream fatal framing error / custom-check failure / statistics mismatch / "
-                "missing, empty, short, non-ALICE input / 10 invalid option combinations / -m / -w code lists incl. prefixes / -e around the true count; "
+                "views and filtered writing with [E100] / [E9001] (no report printed) / missing, empty, short, non-ALICE input / 16 invalid option combinations (all of them in every such case) / -m / -w code lists incl. prefixes / -e around the true count; "
                 "non-trivial = distinct (row of the table, configuration)")
     res.min_nontrivial = 40 if res.tier == "quick" else 120
     res.assumptions = ["totals compared with the displayed entries only for inputs without a fatal error and without display options", "-w matches the leading code of a message"]
